@@ -352,6 +352,21 @@ theorem neg_afterConnect (proxy : Bool) : Spec Neg (afterConnect proxy) := by
     · refine spec_bind neg_po (neg_yieldConnected _) (fun _ => spec_bind neg_po (spec_modS ?_) (fun _ => neg_runLoop))
       intro s; neg_leaf
 
+theorem neg_runLoopNoSel : Spec Neg runLoopNoSel := by
+  unfold runLoopNoSel
+  exact spec_tryC neg_po (spec_bind neg_po (neg_onLoopEnd _) (fun _ => neg_selClose)) neg_runFinally
+
+theorem neg_afterConnectNoSel (proxy : Bool) : Spec Neg (afterConnectNoSel proxy) := by
+  unfold afterConnectNoSel
+  refine spec_bind neg_po (spec_modS ?_) (fun _ => ?_)
+  · intro s; neg_leaf
+  · refine spec_getS_bind neg_po (fun s => ?_)
+    refine spec_bind neg_po (neg_of_quiet (quiet_write _)) (fun r => ?_)
+    split
+    · exact spec_bind neg_po neg_closeSocket (fun _ => neg_yieldEv _)
+    · refine spec_bind neg_po (neg_yieldConnected _) (fun _ => spec_bind neg_po (spec_modS ?_) (fun _ => neg_runLoopNoSel))
+      intro s; neg_leaf
+
 theorem neg_run : Spec Neg run := by
   unfold run
   refine spec_bind neg_po (neg_yieldEv _) (fun _ => ?_)
@@ -360,6 +375,7 @@ theorem neg_run : Spec Neg run := by
   · exact neg_yieldEv _
   · exact neg_yieldEv _
   · exact neg_afterConnect _
+  · exact neg_afterConnectNoSel _
 
 /-- **whole connections**: a compressed frame in the trace implies a `Ready` event that lists
     permessage-deflate -/
